@@ -127,7 +127,7 @@ lay_h!(c08_fast_v2a1_pad0, 2, 1, true, true, 8, 6);
 //@ prop=C08 tier=thorough cost=1200 fns="Mp4Writer::finalize,finalize_fast_start,compute_interleave_schedule" bound="fast start, 2 video + 1 audio samples, moov length 13" unwind=6 stubs="build_moov_box(recording stand-in)" timeout=3000 mem=30
 lay_h!(c08_fast_v2a1_pad5, 2, 1, true, true, 13, 6);
 
-//@ prop=C08 tier=quick cost=500 fns="Mp4Writer::finalize,finalize_fast_start,compute_interleave_schedule" bound="fast start WITH metadata (the stand-in moov is 5 bytes longer when metadata is passed), 1 video + 1 audio sample" unwind=6 stubs="build_moov_box(recording stand-in)" timeout=1400
+//@ prop=C08 tier=quick cost=286 fns="Mp4Writer::finalize,finalize_fast_start,compute_interleave_schedule" bound="fast start WITH metadata (the stand-in moov is 5 bytes longer when metadata is passed), 1 video + 1 audio sample" unwind=6 stubs="build_moov_box(recording stand-in)" timeout=1400
 lay_h!(c08_fast_v1a1_meta, 1, 1, true, true, 8, 6, true);
 //@ prop=C08 tier=quick cost=400 fns="Mp4Writer::finalize,finalize_fast_start" bound="fast start WITH metadata, video-only 2 samples" unwind=6 stubs="build_moov_box(recording stand-in)" timeout=1400
 lay_h!(c08_fast_v2_meta, 2, 0, true, false, 8, 6, true);
